@@ -85,7 +85,7 @@ func newRedisOnly(t *testing.T, first *backends) *backends {
 	return &backends{etcd: first.etcd, redis: r, mr: mr, cfg: first.cfg}
 }
 
-var appOf = map[string]string{"w1": "a", "w2": "a", "w3": "a", "w4": "a2"} // "a" is a string prefix of "a2"
+var appOf = map[string]string{"w1": "a", "w2": "a", "w3": "a", "w4": "a2"}   // "a" is a string prefix of "a2"
 var entryOf = map[string]string{"w1": "x", "w2": "x", "w3": "x2", "w4": "x"} // and "x" of "x2"
 
 // universe names are suffixed per sequence so that parallel sequences never collide
